@@ -1480,7 +1480,7 @@ func genC16(t *rapid.T) c16Case {
 			}
 		default:
 			ms.Kind = "custom"
-			ms.Return = json.RawMessage(rapid.SampledFrom([]string{`"custom"`, `"«c»"`, `0`}).Draw(t, "cret"))
+			ms.Return = json.RawMessage(rapid.SampledFrom([]string{`"custom"`, `"«c»"`, `0`, `null`, `null`}).Draw(t, "cret")) // (nil, nil): "checked, blanked out"
 		}
 		masked = append(masked, comps)
 		c.Steps = append(c.Steps, matcherStep{Spec: ms, Comps: comps})
@@ -1803,6 +1803,8 @@ func TestC16_MaskedFields(t *testing.T) {
 
 type c17Matcher struct {
 	FailPath string     `json:"fail_path,omitempty"` // the path that must be named (default: the matcher's first path)
+	// AlsoNamed: further paths of this matcher that the failure must name
+	AlsoNamed []string `json:"also_named_paths,omitempty"`
 	// AfterFailedSibling: satisfiable; the matcher before it failed on its first path and also lists this matcher's path
 	AfterFailedSibling bool `json:"after_a_failed_matcher_that_lists_the_same_path,omitempty"`
 	// DependsOnEarlier: this matcher fails only because an earlier, satisfiable matcher replaced the value it addresses
@@ -1932,6 +1934,12 @@ func genC17(t *rapid.T) c17Case {
 					if node.K == "obj" {
 						mp = path + ".no_such_member"
 					}
+				case 3:
+					if !yamlDoc {
+						// the empty path, an existing path with a blank in front of or behind it (a list split at ", "):
+						// paths are taken as they are given - these address nothing
+						mp = rapid.SampledFrom([]string{"", " " + path, path + " "}).Draw(t, "odd")
+					}
 				}
 			}
 			m.Spec = MatcherSpec{Kind: which, Paths: []string{mp}, TypeName: "string", Return: json.RawMessage(`"r"`)}
@@ -2009,6 +2017,13 @@ func genC17(t *rapid.T) c17Case {
 			m.Spec = MatcherSpec{Kind: "type", Paths: []string{path}, TypeName: typeMatcherName(node)}
 			m.Comps = comps
 			m.AfterFailedSibling = true
+			used = append(used, comps)
+		case kind == 8 && ok && node.K != "null":
+			// ONE Type matcher listing a path of the wrong type first and a path that does not exist after it: both are named
+			m.Spec = MatcherSpec{Kind: "type", Paths: []string{path, missing(i)}, TypeName: wrongType(node, yamlDoc)}
+			m.Failing = true
+			m.AlsoNamed = []string{missing(i)}
+			m.Comps = comps
 			used = append(used, comps)
 		case kind < 6: // custom error
 			m.Spec = MatcherSpec{Kind: "custom", Paths: []string{path}, ReturnErr: "custom callback says no", ReturnInput: rapid.Bool().Draw(t, "returninput")}
@@ -2147,6 +2162,11 @@ func checkC17(c c17Case) error {
 			want := fmt.Sprintf(`match.%s("%s")`, m.Name, fp)
 			if !strings.Contains(r.Errors[0], want) {
 				return fmt.Errorf("the failure does not name %s; error text %q", want, vhClip(r.Errors[0]))
+			}
+			for _, ap := range m.AlsoNamed {
+				if w2 := fmt.Sprintf(`match.%s("%s")`, m.Name, ap); !strings.Contains(r.Errors[0], w2) {
+					return fmt.Errorf("the failure does not name %s (a later path of a matcher whose earlier path failed as well); error text %q", w2, vhClip(r.Errors[0]))
+				}
 			}
 		}
 		// ... and only those: a matcher that is satisfiable on the document (as the matchers before it left it) did not fail
